@@ -21,7 +21,7 @@ func init() {
 			"the observation of A must be identical across every read-only call and equal to B's at the end; copies taken at random points must equal the original at copy time and, after disjoint suffixes on both sides, each must equal its own sequentially replayed twin. " +
 			"Second pass (race-detector build): a sketch/store and its Copy are hammered by two unsynchronised goroutines; any DATA RACE report is shared mutable state between independent objects. Non-trivial = the hook saw a read-only call reorganise the representation (sort/compact) or a copy followed by mutations on both sides; distinct = hash of the history.",
 		Cases:     core.Scale(10000, 250000),
-		Mandatory: []string{"oracle.read_purity_checks", "oracle.twin_equalities", "oracle.copy_equalities", "oracle.copy_independence_checks", "layout.read_reorganised", "read.Encode", "read.ToProto", "read.EncodeProto", "read.Bins", "read.as_merge_argument", "read.as_change_mapping_source", "race.pairs"},
+		Mandatory: []string{"oracle.read_purity_checks", "oracle.twin_equalities", "oracle.copy_equalities", "oracle.copy_independence_checks", "layout.read_reorganised", "read.Encode", "read.ToProto", "read.EncodeProto", "read.Bins", "read.as_merge_argument", "read.as_change_mapping_source", "ending.underflowed_bins", "race.pairs"},
 		Assumptions: []string{
 			"dyadic weights: observations are bitwise comparable whatever the iteration order of the sparse store",
 			"race pass: the Go race detector only reports races on executions it sees; silence is not a proof of independence",
@@ -243,6 +243,11 @@ func runC14(c *core.Ctx) {
 			hy.exact = exact
 			hy.anySpec = true
 			opsY := hy.gen(rr.Range(1, 12))
+			// the copy also absorbs values of both signs, whatever the original holds (an empty side must not be shared)
+			if pv := math.Abs(hy.pool[rr.Intn(len(hy.pool))]); pv > mA.Min {
+				opsY = append(opsY, skOp{kind: opAddW, v: pv, w: 2}, skOp{kind: opAddW, v: -pv, w: 2}, skOp{kind: opAddW, v: 0, w: 2})
+				hy.budget.Charge(6)
+			}
 			T := mon.NewSketch(exact, m.M, spec)
 			specT, mT := spec, m
 			for _, o := range ops[:i+1] {
@@ -280,6 +285,27 @@ func runC14(c *core.Ctx) {
 			}(cp, snapshotC, T)
 			if i < len(ops)-1 {
 				copyBoth = true
+			}
+		}
+	}
+	if rr.P(0.2) && len(h.pool) > 0 {
+		// bins that underflowed to weight zero: a tiny weight, then a power-of-two reweighting (exact for every
+		// other bin). Read-only calls must not change what such a sketch answers either.
+		v := h.pool[rr.Intn(len(h.pool))]
+		under := []skOp{{kind: opAddW, v: v, w: 0x1p-1000}, {kind: opReweight, w: 0x1p-100}}
+		for _, op := range under {
+			applyOp(c, "A", &A, &specA, &mA, op)
+			applyOp(c, "B", &B, &specB, &mB, op)
+		}
+		c.Count("ending.underflowed_bins", 1)
+		for j := 0; j < 6 && !c.Failed(); j++ {
+			before := mon.Observe(A, nil)
+			name := readOnlyCall(c, rr, A, mA, specA, false)
+			c.Count("read."+name, 1)
+			c.Count("oracle.read_purity_checks", 1)
+			if d := before.Diff(mon.Observe(A, nil)); d != "" {
+				c.Failf("read_changed_state:"+name, "the read-only call %s changed a sketch holding underflowed bins: %s", name, d)
+				return
 			}
 		}
 	}
